@@ -4,7 +4,7 @@ From Coq Require Import List ZArith.
 Import ListNotations.
 Require Import MayV.Sync.CondvarModel MayV.Sync.CondvarInv MayV.Sync.CondvarL4 MayV.Sync.CondvarThm MayV.Sync.CondvarAccept
                MayV.Sync.BarrierModel MayV.Sync.BarrierThm MayV.Sync.BarrierCv MayV.Sync.BarrierLive
-               MayV.Sync.WaitGroupModel MayV.Sync.WaitGroupThm MayV.Sync.WaitGroupLive MayV.Sync.BarrierAccept.
+               MayV.Sync.WaitGroupModel MayV.Sync.WaitGroupThm MayV.Sync.WaitGroupLive MayV.Sync.WaitGroupOnce MayV.Sync.BarrierAccept.
 Close Scope Z_scope.
 
 (* no lost notify_all: once every handle has been dropped nobody stays inside wait() *)
@@ -24,6 +24,15 @@ Theorem C11_wg_wait_returns_exactly_when_all_dropped :
 Proof. exact wg_wait_returns_exactly_when_all_dropped. Qed.
 Print Assumptions C11_wg_wait_returns_exactly_when_all_dropped.
 
+
+(* a wake-up of the Condvar::wait inside WaitGroup::wait is never spurious: when it returns the count is zero, so the body of
+   `while *count > 0 { count = cvar.wait(count) }` runs at most once (the only notifier is the notify_all of the drop that makes
+   the count zero; the wait is untimed; a cancelled waiter unwinds instead of returning).  Consequence for the tie: rewriting the
+   loop as `if` is an EQUIVALENT program over this Condvar and is (rightly) not reported as a violation *)
+Theorem C11_wg_wakeup_not_spurious :
+  forall s a c s', WReach s -> wpc s a = WLw -> wstep s (WInner a c) = Some s' -> wpc s' a = WL -> wcnt s' = 0.
+Proof. exact wg_wakeup_not_spurious. Qed.
+Print Assumptions C11_wg_wakeup_not_spurious.
 
 (* ---- non-vacuity ---- *)
 Example C11_wg_parked_while_handle_alive : exists s, wrun winit wsched_park = Some s /\ WReach s /\ WQuiescent s /\
